@@ -278,6 +278,55 @@ def fArgs : UnOp R → List R
   | base .. => []
   | raise _ => []
 
+/-! ## the clause `krylov-zero-column` as a decidable predicate on (plan, operand)
+
+`Kronecker._matmat` reshapes the operand to `(n₁, …, n_k, cols)` and applies member `j` to the fibres along axis `j`, in the
+order `j = 0, 1, …`.  A Krylov member (`LanczosUnary` / `ArnoldiUnary`) normalises every fibre it is handed: an exactly
+zero fibre is `0 / 0`.  The predicate tracks which entries are CERTAINLY exactly zero: initially the exact zeros of the
+operand; after a `Diagonal(f(d))` member an entry is zero if it was, or if `d` vanishes at its index (`f(0) = 0` for a
+positive power; `f(0) * 0` is not finite for a negative one); after any other member exactly the entries of zero fibres. -/
+
+/-- is this member a Krylov operator? -/
+def isKrylovBase : UnOp R → Bool
+  | base .lanczos _ _ => true
+  | base .arnoldi _ _ => true
+  | _ => false
+
+/-- the diagonal a `Diagonal` member multiplies with vanishes at index `t` -/
+def diagZeroAt : UnOp R → Nat → Option Bool
+  | diagF _ _ _ d, t => some (d t = 0)
+  | scaledEye _ _ _ c, _ => some (c = 0)     -- `f(c) * I`: entrywise, vanishing iff `c = 0` (powers)
+  | eyeLike _, _ => some false               -- `I_like(A)`
+  | _, _ => none
+
+/-- **`krylov-zero-column`**: some Krylov member of the Kronecker plan `Us` (member sizes `sizes`) receives an exactly
+zero fibre of the operand `X` (`N × ncols`, `N = ∏ sizes`) -/
+def zeroFibreClause (Us : List (UnOp R)) (sizes : List Nat) (ncols : Nat) (X : Nat → Nat → R) : Bool := Id.run do
+  let N := sizes.foldl (· * ·) 1
+  let mut mask : Array Bool := Array.ofFn (n := N * ncols) fun i => X (i.val / ncols) (i.val % ncols) = 0
+  let mut j := 0
+  for U in Us do
+    let nj := sizes.getD j 1
+    let stride := (sizes.drop (j + 1)).foldl (· * ·) 1
+    let fibreZero (m : Array Bool) (r c : Nat) : Bool :=
+      (List.range nj).all fun t => m.getD ((r + t * stride) * ncols + c) false
+    let old := mask
+    let mut hit := false
+    for r in [0:N] do
+      if (r / stride) % nj == 0 then
+        for c in [0:ncols] do
+          let fz := fibreZero old r c
+          if fz && U.isKrylovBase then hit := true
+          for t in [0:nj] do
+            let pos := (r + t * stride) * ncols + c
+            let v := match U.diagZeroAt t with
+              | some z => old.getD pos false || z
+              | none => fz
+            mask := mask.setIfInBounds pos v
+    if hit then return true
+    j := j + 1
+  return false
+
 end UnOp
 
 end Unary
